@@ -198,9 +198,32 @@ func runJSONCase(c jsonCase) *core.Failure {
 	if bad := qframe.ReadJSON(strings.NewReader(`[{"LEFTOVER":1.5,"OTHER":"x"}, 7]`)); bad.Err == nil {
 		return core.Failf("ReadJSON accepted a document whose second record is a number")
 	}
-	back := model.Observe(qframe.ReadJSON(bytes.NewReader(out), opts...))
+	firstRead := qframe.ReadJSON(bytes.NewReader(out), opts...)
+	back := model.Observe(firstRead)
 	if d := model.Diff(want, back); d != "" {
 		return core.Failf("ReadJSON(ToJSON(frame)) differs: %s\n %s\n want: %s\n  got: %s", d, desc, want, back)
+	}
+	// a second read (the records in reverse order): same rows reversed, and the frame returned by the first read,
+	// a value of its own, is unchanged
+	if in.N <= 64 {
+		var recs []json.RawMessage
+		if err := json.Unmarshal(out, &recs); err == nil && len(recs) == in.N {
+			for i, j := 0, len(recs)-1; i < j; i, j = i+1, j-1 {
+				recs[i], recs[j] = recs[j], recs[i]
+			}
+			rev, _ := json.Marshal(recs)
+			second := model.Observe(qframe.ReadJSON(bytes.NewReader(rev), opts...))
+			revIx := make([]int, in.N)
+			for i := range revIx {
+				revIx[i] = in.N - 1 - i
+			}
+			if d := model.Diff(want.Rows(revIx), second); d != "" {
+				return core.Failf("ReadJSON of the same records in reverse order differs from the reversed frame: %s\n %s", d, desc)
+			}
+			if now := model.Observe(firstRead); now.String() != back.String() {
+				return core.Failf("the frame returned by the first ReadJSON changed when a second document was read:\n before: %s\n  after: %s\n %s", back, now, desc)
+			}
+		}
 	}
 	return nil
 }
